@@ -227,6 +227,13 @@ def number(draw, d):
     if k == 2:
         return ['$' + draw(st.sampled_from(['n1', 'n2']))]
     if k == 3:
+        if draw(st.sampled_from([0, 0, 1])):
+            # position() / last() of the OUTER context read right after a nested step with a positional predicate has looked at the
+            # context node in ANOTHER list (one-entry position caches, context stacks must not leak between the two)
+            inner = draw(st.sampled_from([['..', '/', '*', '[', 'position', '(', ')', '<=', '4', ']'], ['..', '/', 'node', '(', ')', '[', 'position', '(', ')', '=', 'last', '(', ')', ']'],
+                                          ['self', '::', 'node', '(', ')', '[', 'position', '(', ')', '=', '1', ']'], ['preceding-sibling', '::', '*', '[', 'position', '(', ')', '>', '1', ']'],
+                                          ['..', '/', '*', '[', 'last', '(', ')', '-', 'position', '(', ')', '<', '2', ']'], ['ancestor-or-self', '::', '*', '[', 'position', '(', ')', '<', '3', ']']]))
+            return ['count', '('] + inner + [')', '*', '0', '+', draw(st.sampled_from(['position', 'last'])), '(', ')']
         return draw(st.sampled_from([['position', '(', ')'], ['last', '(', ')']]))
     if k == 4:
         return ['count', '('] + draw(nodeset(max(d - 1, 0))) + [')']
